@@ -71,7 +71,8 @@ Fixpoint dec_digits (fuel : nat) (n : N) (acc : str) : str :=
            if n / 10 =? 0 then acc' else dec_digits f (n / 10) acc'
   end.
 
-Definition dec_of_N (n : N) : str := dec_digits (S (N.size_nat n)) n [].
+(* fuel: a number has at most log2 n + 1 decimal digits *)
+Definition dec_of_N (n : N) : str := dec_digits (S (N.to_nat (N.log2 n))) n [].
 
 (* str(z) for any integer *)
 Definition dec_of_Z (z : Z) : str :=
